@@ -320,7 +320,14 @@ def check_cfg(F, R, cfg):
                     from mirlib import _expr_rv
                     e = _expr_rv(cv, s["rv"], 20)
                     good = bits_le_expr(e)
-        (R.ok if good else R.viol)("C07.ladder.bits_le", I("Scalar::bits_le"), "bit i = (bytes[i>>3] >> (i&7)) & 1 for i in 0..256" if good else "bits_le does not enumerate bit i of byte i>>3 for i in 0..256", *(() if good else (fv.loc(),)))
+        import codec_rules as CR_
+        sem_ok, sem_msg = CR_.bits_le(F)
+        if sem_ok is True:
+            R.ok("C07.ladder.bits_le", I("Scalar::bits_le"), sem_msg + " (bit-provenance domain)")
+        elif sem_ok is False:
+            R.viol("C07.ladder.bits_le", I("Scalar::bits_le"), sem_msg, fv.loc())
+        else:
+            (R.ok if good else R.viol)("C07.ladder.bits_le", I("Scalar::bits_le"), "bit i = (bytes[i>>3] >> (i&7)) & 1 for i in 0..256" if good else "bits_le does not enumerate bit i of byte i>>3 for i in 0..256 (%s)" % sem_msg, *(() if good else (fv.loc(),)))
     mb = fn("curve25519_dalek::montgomery::MontgomeryPoint::mul_bits_be")
     if mb:
         sem = ladder_semantic(F, mb, "bits")
